@@ -793,8 +793,8 @@ func ruleANYPATH1(c *Ctx) {
 		// the function and the private helpers it delegates scalar kinds to
 		var anyCalls []*ast.CallExpr
 		info := f.Info()
-		for _, g := range p.CalleeClosure(f, 1) {
-			if g != f && (g.Name == "json.unmarshalObjectAny" || g.Name == "json.unmarshalArrayAny") {
+		for _, g := range p.CalleeClosure(f, 2) {
+			if g != f && (g.Name == "json.unmarshalObjectAny" || g.Name == "json.unmarshalArrayAny" || g.Name == "json.makeString") {
 				continue
 			}
 			anyCalls = append(anyCalls, findAll[*ast.CallExpr](g.Body())...)
